@@ -169,8 +169,31 @@ FailC2si(e) ==
                     \A a \in S : LET r == RunZ(g, hg, a) IN r[2] \/ BitsNat(r[1]) \in MB
                THEN {} ELSE {"bound"}
 
+\* ---- wide widths: values and bounds are LSB-first bit sequences (BVBits); membership by predicate on
+\*      sampled member pairs xs = << <<x, y>>, ... >> ----
+WMem(x, t) == /\ t.bot = 0
+              /\ LET d == BSub(x, t.lb) span == BSub(t.ub, t.lb) IN
+                 IF t.sbig = 1 \/ IsZero(t.s) THEN x = t.lb
+                 ELSE UCmp(d, span) <= 0 /\ IsZero(BURem(d, t.s))
+FailWide(e) ==
+  IF e.exc # "" THEN {"exc"}
+  ELSE LET n == Len(e.xs)
+           unary == e.op \in {"not", "rev"} IN
+       IF \E i \in 1..n : ~WMem(e.xs[i][1], e.a) \/ (~unary /\ ~WMem(e.xs[i][2], e.b)) THEN {"sample"}
+       ELSE IF (CASE e.op = "add" -> \A i \in 1..n : WMem(BAdd(e.xs[i][1], e.xs[i][2]), e.r)
+                  [] e.op = "sub" -> \A i \in 1..n : WMem(BSub(e.xs[i][1], e.xs[i][2]), e.r)
+                  [] e.op = "union" -> \A i \in 1..n : WMem(e.xs[i][1], e.r) /\ WMem(e.xs[i][2], e.r)
+                  [] e.op = "not" -> \A i \in 1..n : WMem(BNot(e.xs[i][1]), e.r)
+                  [] e.op = "rev" -> \A i \in 1..n : WMem(BReverse(e.xs[i][1]), e.r)
+                  [] e.op = "ULT" -> \A i \in 1..n : (UCmp(e.xs[i][1], e.xs[i][2]) < 0) \in Truth(e.rb)
+                  [] e.op = "ULE" -> \A i \in 1..n : (UCmp(e.xs[i][1], e.xs[i][2]) <= 0) \in Truth(e.rb)
+                  [] e.op = "UGT" -> \A i \in 1..n : (UCmp(e.xs[i][1], e.xs[i][2]) > 0) \in Truth(e.rb)
+                  [] e.op = "UGE" -> \A i \in 1..n : (UCmp(e.xs[i][1], e.xs[i][2]) >= 0) \in Truth(e.rb))
+            THEN {} ELSE {"unsound"}
+
 Failing(e) ==
   CASE e.k = "bin" -> FailBin(e)
+    [] e.k = "wide" -> FailWide(e)
     [] e.k = "cmp" -> FailCmp(e)
     [] e.k = "un" -> FailUn(e)
     [] e.k = "cat" -> FailCat(e)
